@@ -456,6 +456,40 @@ mut('c13-early-drop', 'C13', 'C13.LOCK[lookup]', dirf, '''        let lookup_inf
 mut('c01-dup-key', 'C01', 'C01.P.duplicates', dirf, '''        let distinct_set: HashSet<AkdLabel> =
             updates.iter().map(|(label, _)| label.clone()).collect();''',
     '''        let distinct_set: HashSet<&(AkdLabel, AkdValue)> = updates.iter().collect();''', 'duplicate check keyed by (label, value) (seed C01-r1-a)')
+mut('c16-flush-conditional', 'C16', 'C16.COVER.flush', cache, '''    pub async fn flush(&self) {
+        self.map.clear();''', '''    pub async fn flush(&self) {
+        if !self.can_clean.load(Ordering::Relaxed) {
+            return;
+        }
+        self.map.clear();''', 'flush silently skipped while cleaning is disabled (seed C16-r1-b)', also=['C13'])
+mut('c16-batch-put-limit', 'C16', 'C16.ORDER.put_unconditional[batch_put]', cache, '''    pub async fn batch_put(&self, records: &[DbRecord]) {
+        self.clean().await;
+''', '''    pub async fn batch_put(&self, records: &[DbRecord]) {
+        self.clean().await;
+        if let Some(limit) = self.memory_limit_bytes {
+            if records.len() > limit {
+                return;
+            }
+        }
+''', 'write-through skipped for large batches (seed C14-r1-b)', also=['C14'])
+mut('c14-levels-underflow', 'C14', 'C14.PANIC.levels_arithmetic', azks, '''        let child_parallel_levels =
+            parallel_levels.and_then(|x| if x <= 1 { None } else { Some(x - 1) });
+
+        // handle the left child''', '''        let child_parallel_levels = parallel_levels.map(|x| x - 1).filter(|x| *x > 0);
+
+        // handle the left child''', 'unguarded u8 subtraction on the parallel levels (seed C14-r1-a)', configs=['D', 'W'])
+mut('c15-cache-pending', 'C15', 'C15.BIND.read_put[get_user_state]', mgr, '''                    // no db record, but there is a transaction record so use that
+                    return Ok(transaction_value);''', '''                    // no db record, but there is a transaction record so use that
+                    if let Some(cache) = &self.cache {
+                        cache.put(&DbRecord::ValueState(transaction_value.clone())).await;
+                    }
+                    return Ok(transaction_value);''', 'pending record put into the cache by a read (seed C15-r1-b)', also=['C16'])
+mut('c20-filter-tombstones', 'C20', 'C20.H.selection_value_blind', dirf, '''            HistoryParams::MostRecent(n) => user_data.into_iter().take(n).collect::<Vec<_>>(),''',
+    '''            HistoryParams::MostRecent(n) => user_data
+                .into_iter()
+                .filter(|vs| vs.value.0 != crate::TOMBSTONE)
+                .take(n)
+                .collect::<Vec<_>>(),''', 'tombstoned states left out of MostRecent(n) (seed C20-r1-b)', also=['C03'])
 
 out = [m for m in M if not m.get('disabled')]
 json.dump({'mutants': out}, open(os.path.join(os.path.dirname(os.path.abspath(__file__)), 'mutants.json'), 'w'), indent=1)
